@@ -93,6 +93,10 @@ type Ctx struct {
 	symMu     sync.Mutex
 	symCache  []assertInfo
 	nEntry    int
+	curBlock  int   // block of the verified function currently executing (-1: entry / global facts)
+	assertBlk []int // origin block of each assertion
+	reach     [][]bool
+
 }
 
 type structInfo struct {
@@ -103,10 +107,15 @@ type structInfo struct {
 
 func newCtx(prog *Program, mode Mode) *Ctx {
 	return &Ctx{prog: prog, mode: mode, structs: map[string]*structInfo{}, regions: map[string]string{},
-		strConsts: map[string]string{}, funDecls: map[string]bool{}, notes: map[string]bool{}}
+		strConsts: map[string]string{}, funDecls: map[string]bool{}, notes: map[string]bool{}, curBlock: -1}
 }
 
 func (c *Ctx) note(s string) { c.notes[s] = true }
+
+func (c *Ctx) addAssert(a string, blk int) {
+	c.assert = append(c.assert, a)
+	c.assertBlk = append(c.assertBlk, blk)
+}
 
 func (c *Ctx) fresh(prefix string) string {
 	if c.inQuant > 0 && !strings.HasPrefix(prefix, "q_") {
@@ -151,7 +160,7 @@ func (c *Ctx) assume(fact string) {
 	if fact == "true" || fact == "" {
 		return
 	}
-	c.assert = append(c.assert, fact)
+	c.addAssert(fact, c.curBlock)
 }
 
 // def introduces a name for a term (keeps queries linear in size).
@@ -161,7 +170,7 @@ func (c *Ctx) def(prefix, sort, term string) string {
 	}
 	n := c.fresh(prefix)
 	c.declare(n, sort)
-	c.assert = append(c.assert, eq(n, term))
+	c.addAssert(eq(n, term), c.curBlock)
 	return n
 }
 
